@@ -66,6 +66,9 @@ pub struct HexCase {
     pub pad: [u8; 8],
     pub ints: Vec<i64>,
     pub floats: Vec<u64>,
+    /// long byte strings (13 bytes .. > 64 KiB): (length selector, content seed, index seeds)
+    #[serde(default)]
+    pub long: Vec<(u16, u8, Vec<u32>)>,
 }
 
 pub struct HexEngine;
@@ -193,6 +196,66 @@ impl HexEngine {
                 }
             }
         }
+        // long byte strings: sampled lengths (incl. 255/256/257 and 65535/65536/65537) and
+        // sampled indices/ranges around 0, the middle, len-1, len, len+1 and the 8/16/32-bit boundaries
+        for (lsel, cseed, idxs) in &case.long {
+            const LENS: [usize; 14] = [13, 15, 16, 17, 31, 64, 200, 255, 256, 257, 1000, 65_535, 65_536, 65_537];
+            let len = LENS[(*lsel as usize) % LENS.len()] + if lsel % 3 == 0 { (*lsel as usize >> 4) % 7 } else { 0 };
+            let bytes: Vec<u8> = (0..len).map(|i| (i as u8).wrapping_mul(31).wrapping_add(*cseed).wrapping_add((i >> 8) as u8)).collect();
+            let mut points: Vec<usize> = vec![0, 1, 7, 8, 9, len / 2, len - 1, len, len + 1, 255, 256, 257, 65_535, 65_536, usize::MAX];
+            points.extend(idxs.iter().map(|x| (*x as usize) % (len + 3)));
+            for rep in [Rep::Canonical, Rep::Heap] {
+                let Some(h) = make(rep, &bytes, &case.pad) else { continue };
+                let ctx = format!("Hex {rep:?} of {len} generated bytes");
+                let mut c = Ck { fails: vec![], evals: 0, ctx: &ctx };
+                let b = bytes.as_slice();
+                c.eq("hex.long.len", "len()", caught(|| h.len()), Ok(b.len()));
+                c.eq("hex.long.bytes", "bytes()", caught(|| h.bytes() == b), Ok(true));
+                c.eq("hex.long.to_vec", "to_vec()", caught(|| h.to_vec() == b), Ok(true));
+                let want_print = b.iter().map(|x| format!("{x:02X}")).collect::<Vec<_>>().join("-");
+                c.eq("hex.long.print", "print()", caught(|| h.print() == want_print), Ok(true));
+                c.eq("hex.long.from_str_print", "from_str(print(h)) == h", caught(|| Hex::from_str(&h.print()).map(|x| x == h && x.bytes() == b).unwrap_or(false)), Ok(true));
+                c.eq("hex.long.to_i64", "to_i64() is Err", caught(|| h.to_i64().is_err()), Ok(true));
+                c.eq("hex.long.to_f64", "to_f64() is Err", caught(|| h.to_f64().is_err()), Ok(true));
+                c.eq("hex.long.eq", "== heap of the same bytes", caught(|| h == Hex::Vector(b.to_vec())), Ok(true));
+                let mut other = b.to_vec();
+                let last = other.len() - 1;
+                other[last] ^= 0x80;
+                c.eq("hex.long.eq", "!= bytes differing in the last byte", caught(|| h == Hex::from_vec(other.clone())), Ok(false));
+                c.eq("hex.long.eq", "!= its prefix", caught(|| h == Hex::from_slice(&b[..last])), Ok(false));
+                for &i in &points {
+                    c.eq("hex.long.index", &format!("[{i}]"), caught(|| h[i]), caught(|| b[i]));
+                    c.eq("hex.long.byte_at", &format!("byte_at({i})"), caught(|| h.byte_at(i)), caught(|| b[i]));
+                    c.eq("hex.long.tail", &format!("tail({i})"), caught(|| h.tail(i).bytes().to_vec()), caught(|| b[i..].to_vec()));
+                    c.eq("hex.long.range_from", &format!("[{i}..]"), caught(|| h[i..].to_vec()), caught(|| b[i..].to_vec()));
+                    c.eq("hex.long.range_to", &format!("[..{i}]"), caught(|| h[..i].to_vec()), caught(|| b[..i].to_vec()));
+                    c.eq("hex.long.range_to_inclusive", &format!("[..={i}]"), caught(|| h[..=i].to_vec()), caught(|| b[..=i].to_vec()));
+                    let got = caught(|| {
+                        let mut m = h.clone();
+                        m[i] = m[i].wrapping_add(0x5B);
+                        m.bytes().to_vec()
+                    });
+                    let want = caught(|| {
+                        let mut m = b.to_vec();
+                        m[i] = m[i].wrapping_add(0x5B);
+                        m
+                    });
+                    c.eq("hex.long.index_mut", &format!("[{i}] = x"), got, want);
+                }
+                for w in points.windows(2).chain(std::iter::once(&[len, 0][..])) {
+                    for (i, j) in [(w[0], w[1]), (w[1], w[0])] {
+                        c.eq("hex.long.range", &format!("[{i}..{j}]"), caught(|| h[i..j].to_vec()), caught(|| b[i..j].to_vec()));
+                        c.eq("hex.long.range_inclusive", &format!("[{i}..={j}]"), caught(|| h[i..=j].to_vec()), caught(|| b[i..=j].to_vec()));
+                    }
+                }
+                fails.extend(c.fails);
+                evals += c.evals;
+                use std::hash::{Hash, Hasher};
+                let mut hs = std::collections::hash_map::DefaultHasher::new();
+                (len, cseed, rep as u8, &points).hash(&mut hs);
+                subs.push(hs.finish());
+            }
+        }
         // conversions
         for &i in &case.ints {
             evals += 6;
@@ -260,11 +323,12 @@ impl Engine for HexEngine {
             any::<[u8; 8]>(),
             proptest::collection::vec(any::<i64>(), 4),
             proptest::collection::vec(any::<u64>(), 4),
+            proptest::collection::vec((any::<u16>(), any::<u8>(), proptest::collection::vec(any::<u32>(), 6)), 3),
         )
-            .prop_map(|(content, pad, mut ints, mut floats)| {
+            .prop_map(|(content, pad, mut ints, mut floats, long)| {
                 ints.extend(special_ints());
                 floats.extend(special_floats());
-                HexCase { content, pad, ints, floats }
+                HexCase { content, pad, ints, floats, long }
             })
             .boxed()
     }
@@ -283,7 +347,8 @@ impl Engine for HexEngine {
         }
     }
     fn render(&self, case: &HexCase) -> Value {
-        json!({"content": hx(&case.content), "padding": hx(&case.pad), "ints": case.ints, "float_bits": case.floats})
+        json!({"content": hx(&case.content), "padding": hx(&case.pad), "ints": case.ints, "float_bits": case.floats,
+               "long_strings(length selector, content seed, extra indices)": case.long})
     }
     fn replay(&self, payload: &Value) -> Option<Failure> {
         let case: HexCase = serde_json::from_value(payload.clone()).ok()?;
@@ -299,6 +364,9 @@ pub struct ConcatCase {
     pub b: Vec<u8>,
     pub pad_a: [u8; 8],
     pub pad_b: [u8; 8],
+    /// pairs of long operand lengths (selectors)
+    #[serde(default)]
+    pub long: Vec<(u16, u16)>,
 }
 
 pub struct ConcatEngine {
@@ -343,7 +411,13 @@ impl Engine for ConcatEngine {
             any::<[u8; 8]>(),
             any::<[u8; 8]>(),
         )
-            .prop_map(|(a, b, pad_a, pad_b)| ConcatCase { a, b, pad_a, pad_b })
+            .prop_map(|(a, b, pad_a, pad_b)| ConcatCase { a, b, pad_a, pad_b, long: vec![] })
+            .boxed()
+            .prop_flat_map(|c| (Just(c), proptest::collection::vec((any::<u16>(), any::<u16>()), 4)))
+            .prop_map(|(mut c, long)| {
+                c.long = long;
+                c
+            })
             .boxed()
     }
     fn run(&self, case: &ConcatCase) -> CaseReport {
@@ -351,11 +425,16 @@ impl Engine for ConcatEngine {
         let mut known = vec![];
         let mut failure = None;
         let mut subs = vec![];
-        'outer: for la in 0..=12usize.min(case.a.len()) {
-            for lb in 0..=12usize.min(case.b.len()) {
+        // the generated contents, then all-zero and all-0xFF contents on either side
+        let zeros = vec![0u8; 12];
+        let ffs = vec![0xFFu8; 12];
+        let contents: [(&[u8], &[u8]); 5] = [(&case.a, &case.b), (&zeros, &case.b), (&case.a, &zeros), (&zeros, &zeros), (&ffs, &zeros)];
+        'outer: for (ca, cb) in contents {
+          for la in 0..=12usize.min(ca.len()) {
+            for lb in 0..=12usize.min(cb.len()) {
                 for ra in REPS {
                     for rb in REPS {
-                        let (ab, bb) = (&case.a[..la], &case.b[..lb]);
+                        let (ab, bb) = (&ca[..la], &cb[..lb]);
                         let (Some(a), Some(b)) = (make(ra, ab, &case.pad_a), make(rb, bb, &case.pad_b)) else {
                             continue;
                         };
@@ -394,6 +473,44 @@ impl Engine for ConcatEngine {
                     }
                 }
             }
+          }
+        }
+        // long operands: sampled lengths on both sides (13 .. > 64 KiB) against short and long ones
+        if failure.is_none() {
+            const LENS: [usize; 16] = [0, 1, 7, 8, 9, 13, 16, 31, 255, 256, 257, 1000, 4096, 65_535, 65_536, 65_537];
+            'long: for (sa, sb) in &case.long {
+                let (la, lb) = (LENS[*sa as usize % 16] + (*sa as usize >> 8) % 3, LENS[*sb as usize % 16] + (*sb as usize >> 8) % 3);
+                let ab: Vec<u8> = (0..la).map(|i| (i as u8).wrapping_mul(7).wrapping_add(case.a[0]).wrapping_add((i >> 8) as u8)).collect();
+                let bb: Vec<u8> = (0..lb).map(|i| (i as u8).wrapping_mul(13).wrapping_add(case.b[0]).wrapping_add((i >> 8) as u8) | 1).collect();
+                for ra in REPS {
+                    for rb in REPS {
+                        let (Some(a), Some(b)) = (make(ra, &ab, &case.pad_a), make(rb, &bb, &case.pad_b)) else {
+                            continue;
+                        };
+                        evals += 1;
+                        let verdict = match caught(|| a.concat(&b)) {
+                            Err(()) => Some(("concat.panic".to_string(), format!("{ra:?} of {la} bytes .concat({rb:?} of {lb} bytes) panicked"))),
+                            Ok(r) => Self::judge(&a, &b, &r, &ab, &bb).map(|(k, d)| (k, d.chars().take(400).collect::<String>())),
+                        };
+                        match verdict {
+                            None => {
+                                use std::hash::{Hash, Hasher};
+                                let mut hs = std::collections::hash_map::DefaultHasher::new();
+                                (la, lb, ra as u8, rb as u8, case.a[0], case.b[0]).hash(&mut hs);
+                                subs.push(hs.finish());
+                            }
+                            Some((k, d)) => {
+                                if self.tolerate.contains(&k) {
+                                    known.push((k, String::new()));
+                                } else {
+                                    failure = Some(Failure { prop: "C16".into(), kind: k, step: 0, detail: format!("{ra:?}/{rb:?} ({la}+{lb} bytes): {d}") });
+                                    break 'long;
+                                }
+                            }
+                        }
+                    }
+                }
+            }
         }
         // one known-hit entry per case is enough for the counters
         let known_n = known.len() as u64;
@@ -410,7 +527,7 @@ impl Engine for ConcatEngine {
         }
     }
     fn render(&self, case: &ConcatCase) -> Value {
-        json!({"a": hx(&case.a), "b": hx(&case.b), "pad_a": hx(&case.pad_a), "pad_b": hx(&case.pad_b)})
+        json!({"a": hx(&case.a), "b": hx(&case.b), "pad_a": hx(&case.pad_a), "pad_b": hx(&case.pad_b), "long_length_selectors": case.long})
     }
     fn replay(&self, payload: &Value) -> Option<Failure> {
         let case: ConcatCase = serde_json::from_value(payload.clone()).ok()?;
@@ -615,7 +732,22 @@ impl Engine for LabelEngine {
                 }
                 exhaustive_note.push("enumerated every text over the 14-symbol alphabet up to the depth");
             }
-            LabCase::Texts(v) => texts = v.clone(),
+            LabCase::Texts(v) => {
+                texts = v.clone();
+                // homogeneous boundary texts: every length 1..=9 of one character class
+                // (1-, 2-, 3- and 4-byte UTF-8), and mixtures at the 8-character boundary
+                for c in ['a', 'ρ', '中', '𝜑'] {
+                    for n in 1..=9 {
+                        texts.push(std::iter::repeat(c).take(n).collect());
+                    }
+                    texts.push(format!("{}{c}", "a".repeat(7)));
+                    texts.push(format!("{c}{}", "a".repeat(7)));
+                    texts.push(format!("{c}{}", "a".repeat(8)));
+                }
+                for d in ["18446744073709551615", "18446744073709551614", "18446744073709551610", "18446744073709551616", "09", "4294967296", "4294967295"] {
+                    texts.push(format!("α{d}"));
+                }
+            }
         }
         for t in &texts {
             if let Some(f) = Self::check_text(t, &mut seen, &mut evals, &mut counts) {
@@ -632,6 +764,8 @@ impl Engine for LabelEngine {
         // canonical values: value -> text -> value, and the graph lookup
         if failure.is_none() {
             let mut values: Vec<Label> = vec![Label::Alpha(0), Label::Alpha(1), Label::Alpha(42), Label::Alpha(usize::MAX)];
+            values.extend((1..=6).map(|k| Label::Alpha(usize::MAX - k)));
+            values.extend([Label::Alpha(u32::MAX as usize), Label::Alpha(u32::MAX as usize + 1), Label::Alpha(1 << 40), Label::Alpha(10_000_000), Label::Alpha(9_999_999)]);
             for c in ALPHABET.iter().chain(['x', 'π', 'σ', 'Ω', 'я', '中', '😀'].iter()) {
                 if *c != ' ' && *c != 'α' {
                     values.push(Label::Greek(*c));
